@@ -4,6 +4,7 @@ CONSTANT InitOut <- InitAbsent
 CONSTANT MaxCrashes = 1
 CONSTANT MaxSessions = 2
 CONSTANT NormalExit = FALSE
+CONSTANT MaxWorkerKills = 0
 CONSTANT HeaderOnEmpty = TRUE
 CONSTANT OwnBuffer = TRUE
 CONSTANT HeaderNoClaim = TRUE
